@@ -106,9 +106,10 @@ func FindErrChecks(err ssa.Value) []*ErrCheck {
 // Region returns the blocks dominated by the edge from->to, i.e. those reached
 // only through that edge.
 func Region(from, to *ssa.BasicBlock) map[*ssa.BasicBlock]bool {
+	g := G(to.Parent())
 	out := map[*ssa.BasicBlock]bool{}
 	for _, b := range to.Parent().Blocks {
-		if EdgeDominates(from, to, b) {
+		if g.Live(b) && g.EdgeDominates(from, to, b) {
 			out[b] = true
 		}
 	}
